@@ -79,6 +79,7 @@ func (c *Context) WithPrecision(p uint32) *Context {
 }
 
 // goError converts flags into an error based on c.Traps.
+//
 //gcassert:inline
 func (c *Context) goError(flags Condition) (Condition, error) {
 	if flags == 0 {
@@ -95,6 +96,7 @@ func (c *Context) etiny() int32 {
 // shouldSetAsNaN determines whether setAsNaN should be called, given
 // the provided values, where x is required and y is optional. It is
 // split from setAsNaN to permit inlining of this function.
+//
 //gcassert:inline
 func (c *Context) shouldSetAsNaN(x, y *Decimal) bool {
 	return x.Form == NaNSignaling || x.Form == NaN ||
@@ -705,32 +707,99 @@ func (c *Context) Cbrt(d, x *Decimal) (Condition, error) {
 		}
 	}
 
-	// z is an approximation of the root, so it must not be rounded in a directed
-	// mode before it is known whether the root is exact: a perfect cube's iterate
-	// can sit just above or below its root. Round it to the nearest candidate,
-	// and check that candidate with exact (unlimited precision) arithmetic; its
-	// cube has up to three times the precision in digits.
-	nearest := c.WithPrecision(c.Precision)
-	nearest.Rounding = RoundHalfEven
-	var cand, cube Decimal
-	nearest.round(&cand, &z)
+	// z is an approximation of the root: it is within one unit in the last place
+	// of a c.Precision-digit value, but rounding z is not rounding the root
+	// (an iterate just above or below a representable value or a midpoint would
+	// be taken for it, in a directed mode by a whole unit). Locate the root
+	// exactly instead, with unlimited-precision arithmetic on candidates of
+	// c.Precision digits: find v with v <= root < v + ulp, then the position of
+	// the root relative to the midpoint of that interval, and round a stand-in
+	// with the same position in the caller's mode and with the operand's sign.
+	if c.Precision == 0 {
+		res := c.round(d, &z)
+		res, err := c.goError(res)
+		d.Negative = neg
+		return res, err
+	}
 	exact := MakeErrDecimal(&BaseContext)
-	exact.Mul(&cube, &cand, &cand)
-	exact.Mul(&cube, &cube, &cand)
+	var tmpE BigInt
+	top := tableExp10(int64(c.Precision), &tmpE) // 10**Precision
+	var v Decimal
+	trunc := BaseContext.WithPrecision(c.Precision)
+	trunc.Rounding = RoundDown
+	trunc.round(&v, &z)
+	if pad := int64(c.Precision) - v.NumDigits(); pad > 0 {
+		var tmpP BigInt
+		v.Coeff.Mul(&v.Coeff, tableExp10(pad, &tmpP))
+		v.Exponent -= int32(pad)
+	}
+	// Step down while v is above the root. v keeps exactly c.Precision digits;
+	// just below a power of ten the representable values are ten times denser.
+	var tmpL BigInt
+	low := tableExp10(int64(c.Precision)-1, &tmpL) // 10**(Precision-1)
+	var ulp, next Decimal
+	for i := 0; i < 3 && cmpCubeWith(&exact, &v, &ax) > 0; i++ {
+		ulp.SetFinite(1, v.Exponent)
+		if v.Coeff.Cmp(low) == 0 {
+			ulp.Exponent--
+		}
+		exact.Sub(&v, &v, &ulp)
+	}
+	// Step up while the next value is not above the root.
+	for i := 0; i < 3; i++ {
+		ulp.SetFinite(1, v.Exponent)
+		exact.Add(&next, &v, &ulp)
+		if cmpCubeWith(&exact, &next, &ax) > 0 {
+			break
+		}
+		v.Set(&next)
+		if v.Coeff.Cmp(top) == 0 {
+			v.Coeff.Set(low)
+			v.Exponent++
+		}
+	}
+	pos := cmpCubeWith(&exact, &v, &ax)
 	if err := exact.Err(); err != nil {
 		return 0, err
 	}
-	if cube.Cmp(&ax) == 0 {
+	if pos == 0 {
 		// Result is exact
-		d.Set(&cand)
+		d.Set(&v)
 		d.Negative = neg
-		return 0, nil
+		return c.goError(c.round(d, d))
 	}
+	// mid = v + half a unit in the last place; the stand-in is v plus a quarter,
+	// a half or three quarters of a unit.
+	var mid Decimal
+	mid.Set(&v)
+	mid.Coeff.Mul(&mid.Coeff, bigTen)
+	mid.Coeff.Add(&mid.Coeff, bigFive)
+	mid.Exponent--
+	quarter := uint64(50)
+	switch m := cmpCubeWith(&exact, &mid, &ax); {
+	case m > 0:
+		quarter = 25
+	case m < 0:
+		quarter = 75
+	}
+	if err := exact.Err(); err != nil {
+		return 0, err
+	}
+	var q BigInt
+	v.Coeff.Mul(&v.Coeff, bigHundred)
+	v.Coeff.Add(&v.Coeff, q.SetUint64(quarter))
+	v.Exponent -= 2
+	v.Negative = neg
+	res := c.round(d, &v) | Inexact | Rounded
+	return c.goError(res)
+}
 
-	res := c.round(d, &z)
-	res, err := c.goError(res)
-	d.Negative = neg
-	return res, err
+// cmpCubeWith compares t**3, computed by ed (which must not round), with x.
+func cmpCubeWith(ed *ErrDecimal, t, x *Decimal) int {
+	var cube Decimal
+	ed.Mul(&cube, t, t)
+	ed.Mul(&cube, &cube, t)
+	return cube.Cmp(x)
 }
 
 func (c *Context) logSpecials(d, x *Decimal) (bool, Condition, error) {
